@@ -196,13 +196,9 @@ def _run(ctx):
                 good = False
                 why.append("end = %s" % absint.term_str(end))
             # an item is produced only while the cursor is inside the offsets array
-            def tr(v):
-                return (v != 0) if isinstance(v, int) else True
-            inside = any((t[0] == 'bin' and t[1] == 'Lt' and t[2] == cur and t[3][0] == 'len' and tr(v)) or
-                         (t[0] == 'bin' and t[1] == 'Ge' and t[2] == cur and t[3][0] == 'len' and not tr(v)) or
-                         (t[0] == 'bin' and t[1] == 'Gt' and t[3] == cur and t[2][0] == 'len' and tr(v)) or
-                         (t[0] == 'bin' and t[1] == 'Le' and t[3] == cur and t[2][0] == 'len' and not tr(v)) or
-                         (t[0] == 'discr' and t[1][0] == 'get' and t[1][2] == cur and v == 1) for t, v in p.cons)
+            lens_ = [x for t, v in p.cons if t[0] == 'bin' and t[1] in ('Lt', 'Le') for x in (t[2], t[3]) if x[0] == 'len']
+            inside = any(absint.holds(p.cons, '<', cur, ln_) for ln_ in lens_) or \
+                any(t[0] == 'discr' and t[1][0] == 'get' and t[1][2] == cur and v == 1 for t, v in p.cons)
             if not inside:
                 good = False
                 why.append("item returned without cursor < len(offsets)")
